@@ -201,5 +201,31 @@ pub fn generate(u: &mut Unit, rng: &mut Rng, n: usize) {
                 r => viol(u, format!("recover of a {z2}-frame region over a {z}-frame instance: {r:?}")),
             }
         }
+        // same end, different base: the header page is shared, so the magic matches but the recorded size does not
+        if z > TREE_FRAMES + 2 {
+            let z3 = z - TREE_FRAMES;
+            let sub: &'static mut [Frame] = unsafe { std::slice::from_raw_parts_mut(region.ptr.cast::<Frame>().add(TREE_FRAMES), z3) };
+            let l3 = Buf::new(LLFree::metadata_size(&classing, z3).local);
+            let t3 = Buf::new(LLFree::metadata_size(&classing, z3).trees);
+            u.cov.oracle("C17");
+            u.cov.hit("nvm", "shared-header", "");
+            match guarded(|| NvmAlloc::<LLFree>::create(sub, true, &classing, l3.slice(), t3.slice()).map(|_| ())) {
+                Ok(Err(Error::Initialization)) => {}
+                r => viol(u, format!("recover of the last {z3} frames of a {z}-frame instance (same header page, other size): {r:?}")),
+            }
+        }
+        // the recorded size matches but the magic is foreign
+        {
+            let hdr = unsafe { region.ptr.add((z - 1) * Frame::SIZE).cast::<usize>() };
+            let old = unsafe { hdr.read_volatile() };
+            unsafe { hdr.write_volatile(old ^ 0x10) };
+            u.cov.oracle("C17");
+            u.cov.hit("nvm", "foreign-magic", "");
+            match guarded(|| NvmAlloc::<LLFree>::create(region.frames(z), true, &classing, local.slice(), trees.slice()).map(|_| ())) {
+                Ok(Err(Error::Initialization)) => {}
+                r => viol(u, format!("recover of a {z}-frame region whose header magic is {:#x}: {r:?}", old ^ 0x10)),
+            }
+            unsafe { hdr.write_volatile(old) };
+        }
     }
 }
